@@ -100,8 +100,10 @@ class World:
             [obs.observer_config(cfg) for cfg in case["features"]],
             reward_function_config=DispatcherObserverConfig(IdleTimeReward),
             ready_operations_filter=filt,
+            render_mode=[None, "save_gif", "human"][len(case["events"]) % 3],
         )
-        self.env.reset()
+        if len(case["events"]) % 2:
+            self.env.reset()
         self.last_step = None
 
     def snapshot(self):
